@@ -1,1 +1,31 @@
-fn main() {}
+//! Harness binary for the `hook-std` flavour: tiny-http with the verification hooks on std
+//! primitives.  CONV/mem: the real per-connection code over an in-memory connection with exact
+//! segmentation, exact stall detection and injected faults.
+
+#[path = "../../vreal/src/interp.rs"]
+mod interp;
+mod memrun;
+mod props_mem;
+
+use vcore::cli::{drive, Cli};
+
+fn main() {
+    let cli = Cli::parse("vhook");
+    vcore::panics::install();
+    // a sequential in-memory case never blocks on the client; if the library blocks on itself the
+    // worker hangs: report that as inconclusive (the scheduled engine decides stalls exactly)
+    std::thread::spawn(|| {
+        let limit = std::time::Duration::from_secs(std::env::var("VERIF_HOOK_WATCHDOG_S").ok().and_then(|s| s.parse().ok()).unwrap_or(1500));
+        std::thread::sleep(limit);
+        eprintln!("vhook: watchdog expired (a case blocked inside the library?)");
+        std::process::exit(2);
+    });
+    let found = props_mem::parts(&cli);
+    match found {
+        Some((p, rule, assumptions)) => drive(&cli, p, rule, &assumptions),
+        None => {
+            eprintln!("vhook: no parts for property {}", cli.property);
+            std::process::exit(3)
+        }
+    }
+}
